@@ -57,6 +57,22 @@ CHECKS = {
             "the offset big-endian.", "7/C16"),
     "C17": ("TLA+ timeline automaton over every recorded init (reset pin log, virtual clock, first bus event)",
             "With a pin: low, >=10 us, high, nothing on the bus before high, no 01h; without: first command is 01h exactly once.", "7/C17"),
+    "C05": ("TLA+ encodings/decodings (Dcs.tla) + TLC validation of colour tables recorded from the real InterfacePixelFormat impls, and decoded pixels through every model",
+            "Blocks of consecutive colour values are pushed through the real send_pixels / send_repeated_pixel on u8 and u16 "
+            "words and compared word by word with Enc565x8/Enc565x16/Enc666x8; Dec(Enc(c)) = c is evaluated on the same domain; "
+            "COLMOD announced by every model's init must select the decoder under which drawn walking-bit colours come back.", "7/C05"),
+    "C14": ("TLA+ MadctlOf (bit by bit from the MIPI table) + TLC validation of tables of the real SetAddressMode constructors and setters",
+            "All 64 input combinations of new / From<&ModelOptions>, setter sequences of length 1..3 from all 64 API-reachable "
+            "start values; result must be MadctlOf of the last value per field, opcode 36h, one byte, nothing else touched.", "7/C14"),
+    "C15": ("TLA+ geometric oracle (Show/RotCW/Mirror on an injective picture) + TLC validation of tables of the real orientation operations and angle parser",
+            "Every word of length <= 4 over the six generators from all 8 orientations must show the pre-transformed picture; "
+            "angle parsing equals the residue rule on boundary, random and (thorough) all 2^32 angles.", "7/C15"),
+    "C18": ("TLA+ command encodings (Dcs.tla) + TLC validation of tables of every real DCS command type, write_command and write_raw",
+            "Opcode, parameter bytes (big-endian), reported length, bytes beyond it untouched (two prefill patterns), and the "
+            "exact interface-level traffic of write_command / write_raw.", "7/C18"),
+    "C19": ("TLA+ picture predicates + TLC validation of the real TestImage drawn on a clipping framebuffer for every size, and through real Displays",
+            "No panic for any size from 0x0; for >= 32x32: all painted, exact one-pixel white frame, pure red left of green left "
+            "of blue, different from its 7 symmetric versions.", "7/C19"),
 }
 
 NOT_APPLICABLE = []
